@@ -452,6 +452,98 @@ Section Queries.
     Qed.
   End WithTable.
 
+  (* symbol_version_table: identical version-index bytes, record bytes, string-table bytes and counts *)
+  Definition conv3 (x : N * (N * N) * (N * N)) : N * buf * buf :=
+    let '(cnt, dr, tr) := x in (cnt, view f dr, view f tr).
+  Definition conv_symver (sr : symver_ranges) : buf * option (N * buf * buf) * option (N * buf * buf) :=
+    (view f (sr_versym sr), option_map conv3 (sr_needs sr), option_map conv3 (sr_defs sr)).
+
+  Lemma linked_eval r h {B} (k : (N * N) * (N * N) -> prog B) : eb_shdrs eb = Some r ->
+    match linked f eb r h with
+    | Ok (i, dr, tr) => eval f (x <~ q_linked es h ;; k x) = eval f (k (dr, tr)) /\ i = sh_info h /\
+                        fst dr <= snd dr /\ fst tr <= snd tr
+    | Err _ => exists e, eval f (x <~ q_linked es h ;; k x) = Err e
+    | Panic => False
+    end.
+  Proof.
+    intros Hr. unfold linked, q_linked. pose proof (shdr_vec_get r (sh_link h)) as G.
+    rewrite eval_bind, eval_prange. cbn [fst snd]. unfold sh_range at 1. rewrite (range_in_spec f _ _ Hf).
+    destruct (USIZE_MAX <? sh_offset h + sh_size h) eqn:E1; cbn [rbind]; [eauto|].
+    rewrite (eval_load (sh_offset h) (sh_size h)) by lia.
+    destruct (fits f (sh_offset h) (sh_size h)) eqn:F1; cbn [rbind]; [|eauto].
+    rewrite eval_bind, eval_plift. rewrite (es_shdrs_l r Hr).
+    destruct (nth_n (collect (parse_shdr s c) (view f r)) (sh_link h)) as [strh|]; cbn [ok_or rbind].
+    2:{ destruct G as [e0 ->]. cbn [rbind]. eauto. }
+    rewrite G. cbn [rbind]. rewrite eval_prange. cbn [fst snd]. unfold sh_range. rewrite (range_in_spec f _ _ Hf).
+    destruct (USIZE_MAX <? sh_offset strh + sh_size strh) eqn:E2; cbn [rbind]; [eauto|].
+    rewrite (eval_load (sh_offset strh) (sh_size strh)) by lia.
+    destruct (fits f (sh_offset strh) (sh_size strh)) eqn:F2; cbn [rbind]; [|eauto].
+    cbn [eval rbind fst snd]. repeat split; lia.
+  Qed.
+
+  Theorem symver_equiv r x : eb_shdrs eb = Some r -> symbol_version_table f eb = Some x ->
+    sim (eval f (q_symver es)) (rmap (option_map conv_symver) x).
+  Proof.
+    intros Hr. unfold symbol_version_table, q_symver. rewrite Hr, (shdr_list_l r), (es_shdrs_l r Hr). cbv zeta.
+    set (l := collect (parse_shdr s c) (view f r)).
+    destruct (is_nil l) eqn:En.
+    { destruct l; [|discriminate]. cbn [symver_scan]. intros [= <-]. reflexivity. }
+    destruct (symver_scan l None None None) as [[[vsh|] nd] df]; [|intros [= <-]; reflexivity].
+    intros [= <-]. rewrite eval_bind, eval_plift. unfold validate_entsize.
+    destruct (sh_entsize vsh =? 2); cbn [rbind rmap]; [|exact Logic.I].
+    rewrite eval_prange. cbn [fst snd]. unfold sh_range at 1. rewrite (range_in_spec f _ _ Hf).
+    destruct (USIZE_MAX <? sh_offset vsh + sh_size vsh) eqn:E1; cbn [rbind rmap]; [exact Logic.I|].
+    rewrite (eval_load (sh_offset vsh) (sh_size vsh)) by lia.
+    destruct (fits f (sh_offset vsh) (sh_size vsh)) eqn:F1; cbn [rbind rmap]; [|exact Logic.I].
+    rewrite eval_bind.
+    (* the needs *)
+    assert (GN : forall (o : option shdr),
+      match (match o with Some h => let? y := linked f eb r h in Ok (Some y) | None => Ok None end) with
+      | Ok y => eval f (match o with Some h => y0 <~ q_linked es h ;; PRet (Some (h, y0)) | None => PRet None end)
+                = Ok (match o, y with Some h, Some (_, dr, tr) => Some (h, (dr, tr)) | _, _ => None end) /\
+                match o, y with
+                | Some h, Some (i, dr, tr) => i = sh_info h /\ fst dr <= snd dr /\ fst tr <= snd tr
+                | None, None => True
+                | _, _ => False
+                end
+      | Err _ => exists e, eval f (match o with Some h => y0 <~ q_linked es h ;; PRet (Some (h, y0)) | None => PRet None end) = Err e
+      | Panic => False
+      end).
+    { intros [h|]; [|split; [reflexivity|exact Logic.I]].
+      pose proof (linked_eval r h (fun y0 => PRet (Some (h, y0))) Hr) as LE.
+      destruct (linked f eb r h) as [[[i dr] tr]| |]; cbn [rbind]; [|exact LE|exact LE].
+      destruct LE as [E [Hi [H1 H2]]]. rewrite E. cbn [eval]. repeat split; assumption. }
+    pose proof (GN nd) as G1.
+    destruct (match nd with Some h => let? y := linked f eb r h in Ok (Some y) | None => Ok None end) as [needs| |]; cbn [rbind rmap].
+    2:{ destruct G1 as [e1 ->]. cbn [rbind]. exact Logic.I. }
+    2:{ destruct G1. }
+    destruct G1 as [-> W1]. cbn [rbind]. rewrite eval_bind.
+    pose proof (GN df) as G2.
+    destruct (match df with Some h => let? y := linked f eb r h in Ok (Some y) | None => Ok None end) as [defs| |]; cbn [rbind rmap].
+    2:{ destruct G2 as [e2 ->]. cbn [rbind]. exact Logic.I. }
+    2:{ destruct G2. }
+    destruct G2 as [-> W2]. cbn [rbind].
+    (* the gets: every range was loaded; start + (end - start) = end *)
+    rewrite eval_bind.
+    assert (V : forall a b, a <= b -> view f (a, a + (b - a)) = view f (a, b)) by (intros a b Hab; replace (a + (b - a)) with b by lia; reflexivity).
+    assert (GG : forall (o : option shdr) (y : option (N * (N * N) * (N * N))),
+      match o, y with
+      | Some h, Some (i, dr, tr) => i = sh_info h /\ fst dr <= snd dr /\ fst tr <= snd tr
+      | None, None => True
+      | _, _ => False
+      end ->
+      eval f (match (match o, y with Some h, Some (_, dr, tr) => Some (h, (dr, tr)) | _, _ => None end) with
+              | Some (h, (r0, tr)) => PGet (fst tr) (snd tr) (fun tb => PGet (fst r0) (snd r0) (fun b => PRet (Some (sh_info h, b, tb))))
+              | None => PRet None
+              end) = Ok (option_map conv3 y)).
+    { intros [h|] [[[i [da db]] [ta tb]]|] W; try contradiction; [|reflexivity].
+      destruct W as [-> [H1 H2]]. cbn [fst snd] in *. cbn [eval option_map conv3 fst snd]. rewrite !V by assumption. reflexivity. }
+    rewrite (GG nd needs W1). cbn [rbind]. rewrite eval_bind, (GG df defs W2). cbn [rbind eval].
+    cbn [option_map conv_symver sr_versym sr_needs sr_defs sim].
+    replace (sh_offset vsh + (sh_offset vsh + sh_size vsh - sh_offset vsh)) with (sh_offset vsh + sh_size vsh) by lia.
+    reflexivity.
+  Qed.
+
   (* the dynamic table: whenever the slice parser finds it, the stream parser returns the same bytes
      (the slice parser additionally validates sh_entsize; compressed .dynamic sections and empty
      section header tables are outside the property's scope) *)
@@ -496,3 +588,154 @@ Section Queries.
       + replace (USIZE_MAX <? p_offset h + p_filesz h) with true in H by lia. discriminate.
   Qed.
 End Queries.
+
+(* ---------- C08: what open_stream reads ---------- *)
+(* the ranges a program asks the reader to load, in order (a rejected oversized request is listed
+   too: it performs no I/O) *)
+Fixpoint loads {A} (f : buf) (p : prog A) : list (N * N) :=
+  match p with
+  | PLoad s e k => if blen f <? e then [(s, e)] else (s, e) :: loads f k
+  | PGet s e k => loads f (k (view f (s, s + (e - s))))
+  | PVec _ k => loads f k
+  | _ => []
+  end.
+Lemma loads_bind {A B} f (m : prog A) (k : A -> prog B) :
+  loads f (pbind m k) = (loads f m ++ match eval f m with Ok a => loads f (k a) | _ => [] end)%list.
+Proof.
+  induction m as [a|e| |s e m IH|s e m IH|n m IH]; cbn [pbind loads eval app]; try reflexivity.
+  - destruct (blen f <? e); [reflexivity|]. cbn [app]. now rewrite IH.
+  - apply IH.
+  - exact IH.
+Qed.
+(* every I/O event of a fault-free run belongs to one of those loads *)
+Definition ev_from (ld : list (N * N)) (ev : ioev) : Prop :=
+  match ev with
+  | EvRead a n => In (a, a + n) ld \/ exists e, In (a, e) ld /\ n = e - a
+  | EvSeek a => exists e, In (a, e) ld
+  | EvAlloc n => exists a e, In (a, e) ld /\ n = e - a
+  | EvVec _ => True
+  end.
+Lemma ev_from_mono ld ld' ev : (forall x, In x ld -> In x ld') -> ev_from ld ev -> ev_from ld' ev.
+Proof.
+  intros H. destruct ev; cbn [ev_from]; try tauto.
+  - intros [e He]. eauto.
+  - intros [H1|[e [H1 H2]]]; [left; auto|right; eauto].
+  - intros [a [e [H1 H2]]]. eauto.
+Qed.
+Lemma trace_in_loads {A} f (p : prog A) : forall L, valid_keys f L ->
+  Forall (ev_from (loads f p)) (fst (snd (run_pure f p L))).
+Proof.
+  induction p as [a|e| |s e k IH|s e k IH|n k IH]; intros L Hv; cbn [run_pure loads fst snd]; try constructor.
+  - destruct (mem_key s e L) eqn:M.
+    + replace (blen f <? e) with false by (specialize (Hv _ _ M); lia).
+      eapply Forall_impl; [|apply IH; exact Hv]. intros ev. apply ev_from_mono. intros x Hx. now right.
+    + destruct (blen f <? e) eqn:E; [constructor|].
+      assert (Hv' : valid_keys f ((s, e) :: L)).
+      { intros s1 e1. cbn [mem_key]. destruct ((s =? s1) && (e =? e1)) eqn:K; cbn [orb]; [intros _; lia|apply Hv]. }
+      specialize (IH ((s, e) :: L) Hv'). destruct (run_pure f k ((s, e) :: L)) as [x [t ks]]. cbn [fst snd] in *.
+      apply Forall_app. split.
+      * unfold io_of_load. repeat constructor; cbn [ev_from].
+        -- exists e. now left.
+        -- exists s, e. split; [now left|reflexivity].
+        -- destruct (e - s =? 0); constructor; [|constructor]. cbn [ev_from]. right. exists e. split; [now left|reflexivity].
+      * eapply Forall_impl; [|exact IH]. intros ev. apply ev_from_mono. intros y Hy. now right.
+  - destruct (mem_key s e L); [apply IH; exact Hv|constructor].
+  - specialize (IH L Hv). destruct (run_pure f k L) as [x [t ks]]. cbn [fst snd] in *. constructor; [exact Logic.I|exact IH].
+Qed.
+
+Section OpenLoads.
+  Variable f : buf.
+  Lemma loads_pread s e : loads f (pread s e) = [(s, e)].
+  Proof. unfold pread. cbn [loads]. destruct (blen f <? e); reflexivity. Qed.
+  Lemma loads_plift {A} (r : res A) : loads f (plift r) = [].
+  Proof. destruct r; reflexivity. Qed.
+
+  Definition sh_designated (eh : ehdr) (r : N * N) : Prop :=
+    r = (e_shoff eh, e_shoff eh + shdr_size (e_class eh)) \/
+    exists n, r = (e_shoff eh, e_shoff eh + shdr_size (e_class eh) * n).
+  Definition ph_designated (eh : ehdr) (r : N * N) : Prop :=
+    r = (e_shoff eh, e_shoff eh + shdr_size (e_class eh)) \/
+    exists n, r = (e_phoff eh, e_phoff eh + phdr_size (e_class eh) * n).
+
+  Lemma checked_add_some a b x : checked_add a b = Some x -> x = a + b.
+  Proof. unfold checked_add. destruct (a + b <=? USIZE_MAX); [now intros [= <-]|discriminate]. Qed.
+  Lemma checked_mul_some a b x : checked_mul a b = Some x -> x = a * b.
+  Proof. unfold checked_mul. destruct (a * b <=? USIZE_MAX); [now intros [= <-]|discriminate]. Qed.
+
+  Lemma loads_section_headers eh : Forall (sh_designated eh) (loads f (parse_section_headers eh)).
+  Proof.
+    unfold parse_section_headers. cbv zeta. destruct (e_shoff eh =? 0); [constructor|].
+    rewrite loads_bind, loads_plift, eval_plift. cbn [app]. unfold validate_entsize.
+    destruct (e_shentsize eh =? shdr_size (e_class eh)) eqn:Ee; [|constructor].
+    assert (e_shentsize eh = shdr_size (e_class eh)) as -> by lia.
+    rewrite loads_bind. apply Forall_app. split.
+    - destruct (e_shnum eh =? 0); [|constructor].
+      rewrite loads_bind, loads_plift, eval_plift. cbn [app].
+      destruct (checked_add (e_shoff eh) (shdr_size (e_class eh))) as [en|] eqn:E1; cbn [ok_or]; [|constructor].
+      apply checked_add_some in E1. subst en. rewrite loads_bind, loads_pread. apply Forall_app. split.
+      + constructor; [now left|constructor].
+      + destruct (eval f (pread _ _)); [|constructor|constructor].
+        rewrite loads_bind, loads_plift. cbn [app]. destruct (eval f (plift _)); constructor.
+    - destruct (eval f _) as [shnum| |]; [|constructor|constructor].
+      rewrite loads_bind, loads_plift, eval_plift. cbn [app].
+      destruct (checked_mul (shdr_size (e_class eh)) shnum) as [sz|] eqn:E2; cbn [ok_or]; [|constructor].
+      apply checked_mul_some in E2. subst sz. rewrite loads_bind, loads_plift, eval_plift. cbn [app].
+      destruct (checked_add (e_shoff eh) _) as [en|] eqn:E3; cbn [ok_or]; [|constructor].
+      apply checked_add_some in E3. subst en. rewrite loads_bind, loads_pread. apply Forall_app. split.
+      + constructor; [right; eauto|constructor].
+      + destruct (eval f (pread _ _)); constructor.
+  Qed.
+  Lemma loads_program_headers eh : Forall (ph_designated eh) (loads f (parse_program_headers eh)).
+  Proof.
+    unfold parse_program_headers. cbv zeta. destruct (e_phoff eh =? 0); [constructor|].
+    rewrite loads_bind. apply Forall_app. split.
+    - destruct (e_phnum eh =? PN_XNUM); [|constructor].
+      rewrite loads_bind, loads_plift, eval_plift. cbn [app].
+      destruct (checked_add (e_shoff eh) (shdr_size (e_class eh))) as [en|] eqn:E1; cbn [ok_or]; [|constructor].
+      apply checked_add_some in E1. subst en. rewrite loads_bind, loads_pread. apply Forall_app. split.
+      + constructor; [now left|constructor].
+      + destruct (eval f (pread _ _)); [|constructor|constructor].
+        rewrite loads_bind, loads_plift. cbn [app]. destruct (eval f (plift _)); constructor.
+    - destruct (eval f _) as [phnum| |]; [|constructor|constructor].
+      rewrite loads_bind, loads_plift, eval_plift. cbn [app]. unfold validate_entsize.
+      destruct (e_phentsize eh =? phdr_size (e_class eh)) eqn:Ee; [|constructor].
+      assert (e_phentsize eh = phdr_size (e_class eh)) as -> by lia.
+      rewrite loads_bind, loads_plift, eval_plift. cbn [app].
+      destruct (checked_mul (phdr_size (e_class eh)) phnum) as [sz|] eqn:E2; cbn [ok_or]; [|constructor].
+      apply checked_mul_some in E2. subst sz. rewrite loads_bind, loads_plift, eval_plift. cbn [app].
+      destruct (checked_add (e_phoff eh) _) as [en|] eqn:E3; cbn [ok_or]; [|constructor].
+      apply checked_add_some in E3. subst en. rewrite loads_bind, loads_pread. apply Forall_app. split.
+      + constructor; [right; eauto|constructor].
+      + destruct (eval f (pread _ _)); constructor.
+  Qed.
+
+  (* open_stream asks for: the 16 ident bytes, the header tail of the ident's class, shdr[0] (only
+     under extended numbering) and the two header tables -- nothing else *)
+  Definition open_designated (fam : specfam) (r : N * N) : Prop :=
+    r = (0, 16) \/
+    match parse_ident fam (view f (0, 16)) with
+    | Ok (s, c, osabi, abiver) =>
+      r = (16, 16 + tail_size c) \/
+      exists eh, fst (parse_tail s c osabi abiver (view f (16, 16 + tail_size c)) 0) = Ok eh /\
+                 (sh_designated eh r \/ ph_designated eh r)
+    | _ => False
+    end.
+  Theorem open_loads fam : Forall (open_designated fam) (loads f (open_prog fam)).
+  Proof.
+    unfold open_prog. rewrite loads_bind, loads_pread. cbn [app]. constructor; [now left|].
+    rewrite eval_pread by lia. destruct (blen f <? 16); [constructor|].
+    rewrite loads_bind, loads_plift, eval_plift. cbn [app].
+    destruct (parse_ident fam (view f (0, 16))) as [[[[s c] osabi] abiver]| |] eqn:Ei; [|constructor|constructor].
+    rewrite loads_bind, loads_pread. cbn [app].
+    constructor; [right; unfold open_designated; rewrite Ei; now left|].
+    rewrite eval_pread by lia. destruct (blen f <? 16 + tail_size c); [constructor|].
+    rewrite loads_bind, loads_plift, eval_plift. cbn [app].
+    destruct (fst (parse_tail s c osabi abiver (view f (16, 16 + tail_size c)) 0)) as [eh| |] eqn:Et; [|constructor|constructor].
+    rewrite loads_bind. apply Forall_app. split.
+    - eapply Forall_impl; [|apply loads_section_headers]. intros r H. right. unfold open_designated. rewrite Ei. right. exists eh. tauto.
+    - destruct (eval f (parse_section_headers eh)); [|constructor|constructor].
+      rewrite loads_bind. apply Forall_app. split.
+      + eapply Forall_impl; [|apply loads_program_headers]. intros r H. right. unfold open_designated. rewrite Ei. right. exists eh. tauto.
+      + destruct (eval f (parse_program_headers eh)); constructor.
+  Qed.
+End OpenLoads.
